@@ -26,6 +26,17 @@ B = ("layer /* c */ name\t'H01' # trailing\r\n  Type   polygon\r\n\r\n  sTATUS o
      "  class Name 'H06'\n    style width 2 /* a\nmulti-line\ncomment */ color 1 2\t3 symbol 'H07' END\r\n"
      "    label size 8 font 'H08' eNd # x\n  End\r\n  processing 'H09'\r\nEND\r\n")
 
+# renderings that go through the token-stream re-tagging of Parser.parse (bare words after SYMBOL, `NAME grid` in OUTPUTFORMAT, the
+# GRID block) - the keywords differ in letter case, the bare values are spelled the same
+A2 = '''MAP OUTPUTFORMAT NAME grid DRIVER "H01" IMAGEMODE INT16 END OUTPUTFORMAT NAME "H02" DRIVER GDAL/GTiff END SYMBOL NAME "H03" TYPE ELLIPSE FILLED TRUE POINTS 1 1 END END
+LAYER NAME "H04" TYPE POINT CLASS SYMBOL star STYLE SYMBOL circle SIZE 2 END STYLE SYMBOL 3 END STYLE SYMBOL "H05" END END END
+LAYER NAME "H06" TYPE LINE GRID LABELFORMAT "H07" MINARCS 2 END END END'''
+
+B2 = ("map /* c */ outputformat name grid driver 'H01' ImageMode INT16 end\r\n OutputFormat Name 'H02' driver GDAL/GTiff End # x\n"
+      " symbol name 'H03' type ELLIPSE Filled TRUE points 1 1 end eND\n"
+      "layer name 'H04' type POINT class symbol star style symbol circle size 2 end Style Symbol 3 end\tstyle symbol 'H05' end end end\n"
+      "Layer Name 'H06' Type LINE grid labelformat 'H07' minarcs 2 end end end")
+
 BODY = '''
 {BUILD}
 da = M.transform(PIPE.parse(TEXT_A, {HA}))
@@ -88,6 +99,18 @@ def obligations(tier, seed):
     ha = "{" + ", ".join(f"{chr(34) + h.marker + chr(34)!r}: '\"' + {h.var} + '\"'" for h in holes) + "}"
     hb = "{" + ", ".join(f"{chr(39) + h.marker + chr(39)!r}: \"'\" + {h.var} + \"'\"" for h in holes) + "}"
     src = PRELUDE + f"\nTEXT_A = {A!r}\nTEXT_B = {B!r}\n" + harness("h", params, conj(pre), BODY.format(BUILD="\n".join(build), HA=ha, HB=hb))
+    h2 = [Hole("H%02d" % i, L=2) for i in range(1, 8)]
+    h2[4].kind = "xstr"         # SYMBOL
+    p2, pre2, b2 = [], [], []
+    for h in h2:
+        p2 += h.params(); pre2 += h.pre(); b2.append(h.build())
+    ha2 = "{" + ", ".join(f"{chr(34) + h.marker + chr(34)!r}: '\"' + {h.var} + '\"'" for h in h2) + "}"
+    hb2 = "{" + ", ".join(f"{chr(39) + h.marker + chr(39)!r}: \"'\" + {h.var} + \"'\"" for h in h2) + "}"
+    src2 = PRELUDE + f"\nTEXT_A = {A2!r}\nTEXT_B = {B2!r}\n" + harness("h", p2, conj(pre2), BODY.format(BUILD="\n".join(b2), HA=ha2, HB=hb2))
+    obs.append(Ob(name="C05-REL/retag", source=src2, pct=900, timeout=1000,
+                  meta={"desc": "the same for a MAP whose tokens are re-tagged by Parser.parse (bare word after SYMBOL in CLASS / STYLE, NAME grid in OUTPUTFORMAT, GRID block, SYMBOL block): "
+                                "upper-case keywords vs lower / mixed case give equal dicts",
+                        "functions": ["Parser.parse (re-tagging loop)", "MapfileTransformer"], "stubs": ["hole lexer"]}))
     obs.append(Ob(name="C05-REL/renderings", source=src, pct=900, timeout=1000,
                   meta={"desc": "upper-case / one-line / double-quoted vs mixed-case / CRLF / tabs / FF / comments / single-quoted: equal dicts for all string contents",
                         "functions": ["Parser.parse", "MapfileTransformer"], "stubs": ["hole lexer"]}))
